@@ -61,8 +61,7 @@ int snoopy_datasource_datetime (char * const resultBuf, size_t resultBufSize, ch
         return snprintf(resultBuf, resultBufSize, "(error @ time(): %d)", errno);
     }
 
-    // Convert to local time - in the time zone that is in force now: unlike localtime(), localtime_r() need not look at TZ again
-    tzset();
+    // Convert to local time
     curLocalTime = localtime_r(&curTime, &curLocalTimeBuf);
     if (NULL == curLocalTime) {
         return snprintf(resultBuf, resultBufSize, "(error @ localtime_r())");
